@@ -5,7 +5,7 @@ P=$1; TAG=$2; shift 2
 D=/tmp/evalcopies/$TAG
 rm -rf $D; mkdir -p $D /tmp/evalcopies/logs
 git -C /repo archive HEAD src | tar -x -C $D
-( cd $D && patch -s -p1 < $P ) || { echo "$TAG PATCH DOES NOT APPLY"; rm -rf $D; exit 9; }
+[ -s $P ] && { ( cd $D && patch -s -p1 < $P ) || { echo "$TAG PATCH DOES NOT APPLY"; rm -rf $D; exit 9; }; }
 cd /verif
 for c in "$@"; do
   ASPIRE_REPO=$D ASPIRE_VERIF_EVIDENCE_DIR=/tmp/evalcopies/evidence_$TAG timeout 1800 ./check $c --tier quick > /tmp/evalcopies/logs/${TAG}_$c.log 2>&1
